@@ -15,8 +15,8 @@ VARIANTS = [
          old="                f.write(what_to_write.encode(\"utf-8\"))\n",
          new="                for log in logs:\n                    f.write((json.dumps(log) + \"\\n\").encode(\"utf-8\"))\n"),
     dict(id="c05-no-trailing-newline", prop="C05", file=JF, expect="R05.1",
-         old="                \"\\n\".join([json.dumps(log, separators=(\",\", \":\")) for log in logs]) + \"\\n\"\n",
-         new="                \"\\n\".join([json.dumps(log, separators=(\",\", \":\")) for log in logs])\n"),
+         old="                [json.dumps(log, separators=(\",\", \":\")) + \"\\n\" for log in logs]\n",
+         new="                [json.dumps(log, separators=(\",\", \":\")) for log in logs]\n"),
     dict(id="c05-open-w", prop="C05", file=JF, expect="R05.2",
          old="            with open(self._file_path, \"ab\") as f:", new="            with open(self._file_path, \"r+b\") as f:"),
     dict(id="c05-init-truncates", prop="C05", file=JF, expect="R05.2",
@@ -28,8 +28,8 @@ VARIANTS = [
          old="        self._backend.append_logs([{\"op_code\": op_code, \"worker_id\": worker_id, **extra_fields}])\n",
          new="        rec = {\"op_code\": op_code, \"worker_id\": worker_id, **extra_fields}\n        if op_code != JournalOperation.SET_TRIAL_INTERMEDIATE_VALUE:\n            self._backend.append_logs([rec])\n"),
     dict(id="c05-cached-cache-before-backend", prop="C05", file=CS, expect="R05.3",
-         old="        study_id = self._backend.create_new_study(directions=directions, study_name=study_name)\n        with self._lock:\n            study = _StudyInfo()\n            study.name = study_name\n            study.directions = list(directions)\n            self._studies[study_id] = study\n",
-         new="        study_id = len(self._studies)\n        with self._lock:\n            study = _StudyInfo()\n            study.name = study_name\n            study.directions = list(directions)\n            self._studies[study_id] = study\n        study_id = self._backend.create_new_study(directions=directions, study_name=study_name)\n"),
+         old="            study_id = self._backend.create_new_study(directions=directions, study_name=study_name)\n            study = _StudyInfo()\n            study.name = study_name\n            study.directions = list(directions)\n            self._studies[study_id] = study\n",
+         new="            study_id = len(self._studies)\n            study = _StudyInfo()\n            study.name = study_name\n            study.directions = list(directions)\n            self._studies[study_id] = study\n            study_id = self._backend.create_new_study(directions=directions, study_name=study_name)\n"),
     dict(id="c05-cached-skip-backend-attr", prop="C05", file=CS, expect="R05.3",
          old="        self._backend.set_trial_system_attr(trial_id, key=key, value=value)\n",
          new="        if not key.startswith(\"_tmp:\"):\n            self._backend.set_trial_system_attr(trial_id, key=key, value=value)\n"),
